@@ -235,7 +235,8 @@ def internal_error_key(failure, node_type: str):
     m = _EXC_RE.search(desc)
     if m is None:
         # patma's "Match value is not a literal" and similar direct uses of the code
-        return f"internal_error|direct:{norm_exc_msg(desc.splitlines()[0] if desc else '')}|{node_type}", "?"
+        first = desc.splitlines()[0] if desc else ""
+        return f"internal_error|direct:{norm_exc_msg(first.split(':')[0])}|{node_type}", "?"
     exc = m.group(1).split(".")[-1]
     where, fileline = _frame_key(frames_of_text(desc))
     return f"internal_error|{exc}|{where}|{node_type}", fileline
@@ -249,6 +250,18 @@ def escaped_key(exc: BaseException):
 def last_line(desc: str) -> str:
     lines = [l for l in str(desc).strip().splitlines() if l.strip()]
     return lines[-1][:300] if lines else ""
+
+
+# line boundaries for str.splitlines() but not for CPython's tokenizer
+_SPLITLINES_ONLY = re.compile("[\x0b\x0c\x1c\x1d\x1e\x85\u2028\u2029]")
+
+
+def malformed_key(clause: str, code_name: str, source: str) -> str:
+    if clause.startswith(("code-", "message-", "description-", "lineno-missing", "col-missing")):
+        return f"malformed|{clause}|{code_name}"
+    if _SPLITLINES_ONLY.search(source):
+        return f"malformed|{clause}|source-has-a-separator-only-str.splitlines-honours"
+    return f"malformed|{clause}"
 
 
 # ---------------------------------------------------------------------------
@@ -269,7 +282,7 @@ def observe(source: str, config: str, fresh: bool = False):
     lines = py_lines(source)
     if res.exception is not None:
         key, fileline = escaped_key(res.exception)
-        found.append((key, f"[{config}] exception escaped check(): {res.exception!r} at {fileline}"))
+        found.append((key, f"[{config}] exception escaped check(): {res.exception!r} at {fileline}", None))
     raw = getattr(res, "raw", [])
     codes = collections.Counter()
     for f in raw:
@@ -278,27 +291,27 @@ def observe(source: str, config: str, fresh: bool = False):
         if code is ErrorCode.internal_error:
             ntype = next((nt for r, nt in CONTRACT.nodes if r is f), "?")
             key, fileline = internal_error_key(f, ntype)
-            found.append((key, f"[{config}] internal_error at line {f.get('lineno')}: {last_line(f.get('description'))} ({fileline}; visiting {ntype})"))
+            found.append((key, f"[{config}] internal_error at line {f.get('lineno')}: {last_line(f.get('description'))} ({fileline}; visiting {ntype})", f.get("lineno")))
         for p in failure_problems(f, lines):
-            found.append((f"malformed|{p}|{getattr(code, 'name', '<none>')}",
+            found.append((malformed_key(p, getattr(code, "name", "<none>"), source),
                           f"[{config}] diagnostic {getattr(code, 'name', code)} lineno={f.get('lineno')} col={f.get('col_offset')} "
-                          f"nlines={len(lines)}: {p}; description: {str(f.get('description'))[:120]!r}"))
+                          f"nlines={len(lines)}: {p}; description: {str(f.get('description'))[:120]!r}", f.get("lineno")))
     # in situ: diagnostics that were shown (written to stderr) though not saved, and show_error itself raising
     for probs, cname, ntype in CONTRACT.bad:
         for p in probs:
-            k = f"malformed|{p}|{cname}"
-            if not any(k == fk for fk, _ in found):
-                found.append((k, f"[{config}] show_error contract: {p} for code {cname} on a {ntype} node"))
+            k = malformed_key(p, cname, source)
+            if not any(k == fk[0] for fk in found):
+                found.append((k, f"[{config}] show_error contract: {p} for code {cname} on a {ntype} node", None))
     for name in CONTRACT.raised:
         k = f"show_error-raised|{name}"
-        found.append((k, f"[{config}] show_error itself raised {name}"))
+        found.append((k, f"[{config}] show_error itself raised {name}", None))
     stats = {"diags": len(raw), "codes": codes, "contract": CONTRACT.evaluations}
     # one (key, what) per key
     seen, out = set(), []
-    for k, w in found:
+    for k, w, ln in found:
         if k not in seen:
             seen.add(k)
-            out.append((k, w))
+            out.append((k, w, ln))
     return "ok", out, stats
 
 
@@ -306,24 +319,60 @@ def observe(source: str, config: str, fresh: bool = False):
 # shrinking: greedy statement deletion on the source text (layout of the surviving lines is preserved)
 
 
-def _stmt_spans(tree) -> list:
-    """(first line, last line, indent, n_lines) of every statement, larger first; statements sharing a line are skipped"""
+def _dedent_block(lines, by: int):
+    out = []
+    for l in lines:
+        if l.strip() and not l.startswith(" " * by):
+            return None
+        out.append(l[by:] if l.strip() else l)
+    return out
+
+
+def _candidates(source: str, target_line):
+    """Edits, most promising first: delete statements that do not contain the reported line (largest first), hoist a
+    block of a compound statement that contains it, finally replace statements by `pass`."""
+    tree = ast.parse(source)
+    lines = source.split("\n")
     per_line = collections.Counter()
     stmts = []
     for node in ast.walk(tree):
         if isinstance(node, ast.stmt):
             lo = min([node.lineno] + [d.lineno for d in getattr(node, "decorator_list", [])])
             stmts.append((lo, node.end_lineno, node.col_offset, node))
-            for ln in range(lo, node.end_lineno + 1):
-                per_line[ln] += 0
             per_line[lo] += 1
-    spans = []
+    dele, hoist, repl = [], [], []
     for lo, hi, col, node in stmts:
-        if per_line[lo] > 1 and not any(isinstance(node, t) for t in (ast.FunctionDef, ast.AsyncFunctionDef, ast.ClassDef)):
+        if per_line[lo] > 1 and not isinstance(node, (ast.FunctionDef, ast.AsyncFunctionDef, ast.ClassDef)):
             continue
-        spans.append((lo, hi, col))
-    spans.sort(key=lambda s: (-(s[1] - s[0]), s[0]))
-    return spans
+        inside = target_line is not None and lo <= target_line <= hi
+        size = hi - lo + 1
+        if not inside:
+            dele.append((-size, lo, lines[: lo - 1] + lines[hi:]))
+            repl.append((-size, lo, lines[: lo - 1] + [" " * col + "pass"] + lines[hi:]))
+        else:
+            blocks = []
+            for field in ("body", "orelse", "finalbody"):
+                blk = getattr(node, field, None)
+                if isinstance(blk, list) and blk and isinstance(blk[0], ast.stmt):
+                    blocks.append(blk)
+            for h in getattr(node, "handlers", []) or []:
+                blocks.append(h.body)
+            for c in getattr(node, "cases", []) or []:
+                blocks.append(c.body)
+            for blk in blocks:
+                b_lo = min([blk[0].lineno] + [d.lineno for d in getattr(blk[0], "decorator_list", [])])
+                b_hi = blk[-1].end_lineno
+                if not (b_lo <= target_line <= b_hi) or b_lo == lo:
+                    continue
+                ded = _dedent_block(lines[b_lo - 1: b_hi], blk[0].col_offset - col)
+                if ded is not None:
+                    hoist.append((-size, lo, lines[: lo - 1] + ded + lines[hi:]))
+    dele.sort(key=lambda t: t[:2])
+    hoist.sort(key=lambda t: t[:2])
+    repl.sort(key=lambda t: t[:2])
+    for group in (dele, hoist, repl):
+        for _, _, cand in group:
+            yield "\n".join(cand)
 
 
 def _compiles(src: str) -> bool:
@@ -334,39 +383,37 @@ def _compiles(src: str) -> bool:
         return False
 
 
-def shrink(source: str, config: str, key: str, budget: int = 150):
-    """-> (smaller source, number of re-checks used)"""
+def shrink(source: str, config: str, key: str, target_line=None, budget: int = 150):
+    """Greedy statement deletion / block hoisting on the source text while the same key persists (layout of the surviving
+    lines is kept). -> (smaller source, number of re-checks used)"""
     used = 0
     changed = True
+    tried = set()
     while changed and used < budget:
         changed = False
         try:
-            tree = ast.parse(source)
-        except Exception:  # noqa: BLE001
-            break
-        lines = source.split("\n")
-        for lo, hi, col in _stmt_spans(tree):
-            if used >= budget:
-                break
-            cands = [lines[: lo - 1] + lines[hi:], lines[: lo - 1] + [" " * col + "pass"] + lines[hi:]]
-            for cand_lines in cands:
-                cand = "\n".join(cand_lines)
-                if cand == source or not _compiles(cand):
+            cands = _candidates(source, target_line)
+            for cand in cands:
+                if used >= budget:
+                    break
+                if cand == source or cand in tried or not _compiles(cand):
                     continue
+                tried.add(cand)
                 used += 1
                 status, found, _ = observe(cand, config)
-                if status == "ok" and any(k == key for k, _ in found):
-                    source = cand
+                hit = next((f for f in found if f[0] == key), None) if status == "ok" else None
+                if hit is not None:
+                    source, target_line = cand, hit[2]
                     changed = True
                     break
-            if changed:
-                break
+        except Exception:  # noqa: BLE001
+            break
     return source, used
 
 
 def confirm_fresh(source: str, config: str, key: str):
     status, found, _ = observe(source, config, fresh=True)
-    for k, w in found:
+    for k, w, _ln in found:
         if k == key:
             return w
     return None
@@ -419,8 +466,8 @@ def check_program(ctx, source: str, feats, origin: str, minimise: bool = True, s
         total_diags += stats["diags"]
         for c, n in stats["codes"].items():
             ctx.histo("diagnostic_codes", c, n)
-        for k, w in found:
-            all_found.setdefault(k, (config, w))
+        for k, w, ln in found:
+            all_found.setdefault(k, (config, w, ln))
     ctx.count("programs_checked")
     ctx.histo("origin", origin)
     for f in feats:
@@ -439,17 +486,17 @@ def check_program(ctx, source: str, feats, origin: str, minimise: bool = True, s
         ctx.count("programs_with_diagnostics")
     if len(ctx.samples) < 2 and origin == "fuzz":
         ctx.sample({"program": source[len(fuzzgen.HEADER) - 200:][:1800]})
-    for key, (config, what) in sorted(all_found.items()):
-        report(ctx, source, config, key, what, minimise, shrunk_keys)
+    for key, (config, what, ln) in sorted(all_found.items()):
+        report(ctx, source, config, key, what, ln, minimise, shrunk_keys)
 
 
-def report(ctx, source, config, key, what, minimise=True, shrunk_keys=None) -> None:
+def report(ctx, source, config, key, what, target_line=None, minimise=True, shrunk_keys=None) -> None:
     ctx.histo("violations_by_config", config)
     if shrunk_keys is None:
         shrunk_keys = {}
     if minimise and shrunk_keys.get(key, 0) < 2:
         shrunk_keys[key] = shrunk_keys.get(key, 0) + 1
-        small, used = shrink(source, config, key)
+        small, used = shrink(source, config, key, target_line)
         ctx.count("shrink_rechecks", used)
         ctx.count("witnesses_minimised")
     else:
@@ -824,7 +871,7 @@ def replay(witness):
         configs = [witness["config"]] if witness.get("config") in CONFIGS else list(CONFIGS)
         for config in configs:
             status, found, _ = observe(witness["source"], config, fresh=True)
-            for k, w in found:
+            for k, w, _ln in found:
                 ctx.violation(k, w, witness)
     elif kind == "cli":
         import tempfile
